@@ -419,8 +419,10 @@ def finish(mod, prop, tier, seed, cfgs, results, t0, extra_cov=None):
     }
     if extra_cov:
         ev['coverage'].update(extra_cov)
-    os.makedirs(os.path.join(VERIF, 'evidence'), exist_ok=True)
-    with open(os.path.join(VERIF, 'evidence', prop + '.json'), 'w') as f:
+    # runs against another tree than /repo (seeded-change experiments) must not overwrite the evidence of the real tree
+    evdir = os.environ.get('VERIF_EVIDENCE_DIR') or os.path.join(VERIF, 'evidence' if os.path.realpath(REPO) == '/repo' else 'evidence-other-tree')
+    os.makedirs(evdir, exist_ok=True)
+    with open(os.path.join(evdir, prop + '.json'), 'w') as f:
         json.dump(ev, f, indent=1, default=str)
     print("%s tier=%s configs=%d paths=%d obligations=%d z3-queries=%d solver=%.1fs wall=%.1fs validated=%d" % (
         prop, tier, len(cfgs), paths, obligations, nchecks, solver_s, wall, validated))
